@@ -55,6 +55,29 @@ REGION = {
     'C19': "pane/io.py: write_json, write_yaml, from_json, from_yaml, from_yaml_all, _validate_file, and the dataclass IO methods in pane/classes.py (from_json / from_yaml / write_json / write_yaml / from_jsons / from_yamls)",
     'C20': "pane/field.py: _split_field_name, _pairwise, _CONVERT_FNS and each per-style function, and the places in pane/classes.py / pane/field.py that call rename_field (FieldSpec.make_field, PaneBase.dict)",
 }
+# round 5: a second region per property (the other half of the code that bears on it)
+REGION5 = {
+    'C01': "in pane/converters.py: DictConverter, SequenceConverter (set / frozenset / deque / abstract collection handling), LiteralConverter, StructConverter; in pane/convert.py: the _ABSTRACT_MAPPING table and the path / Decimal / Fraction / datetime entries of the converter tables",
+    'C02': "in pane/classes.py: PaneConverter.try_convert, try_convert_tuple, try_convert_struct (a dataclass read positionally or by name); in pane/converters.py: TupleConverter, SequenceConverter, DictConverter, StructConverter (mapping vs sequence vs string decisions)",
+    'C03': "PaneConverter in pane/classes.py (try_convert_* against collect_errors_*), and in pane/converters.py: TaggedUnionConverter, ConditionalConverter, LiteralConverter, DelegateConverter, DictConverter",
+    'C04': "pane/classes.py (PaneConverter, the handling of __post_init__ failures, from_data / convert classmethods) and TaggedUnionConverter / DictConverter / SequenceConverter in pane/converters.py",
+    'C05': "PaneConverter.into_data and PaneBase.into_data / dict in pane/classes.py, FieldSpec.make_field in pane/field.py (input vs output names), and the into_data methods of TaggedUnionConverter, EnumConverter, LiteralConverter, DelegateConverter",
+    'C06': "convert() and into_data() in pane/convert.py, the generated __init__ (_make_init in pane/classes.py), and the handling of deque / OrderedDict / defaultdict / Counter / frozenset values in SequenceConverter and DictConverter",
+    'C07': "PaneConverter.collect_errors_struct / collect_errors_tuple in pane/classes.py, and TaggedUnionConverter.collect_errors, UnionConverter.collect_errors, ConditionalConverter.collect_errors, DictConverter.collect_errors in pane/converters.py",
+    'C08': "the expected() methods of every converter in pane/converters.py and pane/classes.py (they supply the wording that error messages show), TaggedUnionConverter.tag_expected, and the ErrorNode classes in pane/errors.py",
+    'C09': "TaggedUnionConverter (tag stripping in both passes), PaneConverter.try_convert_struct / collect_errors_struct (aliases, duplicates, extra keys), the generated __init__ (_make_init), TupleConverter and SequenceConverter",
+    'C10': "make_converter, _TypeKey and ConverterHandlers (__hash__ / __eq__ / make) in pane/convert.py, the `_converter` classmethod and converter construction of pane dataclasses in pane/classes.py, and replace_typevars in pane/util.py",
+    'C11': "UnionConverter (every method) in pane/converters.py, the Union / Optional branch of make_converter in pane/convert.py, and how TaggedUnionConverter inherits from UnionConverter",
+    'C12': "TaggedUnionConverter.try_convert / collect_errors in pane/converters.py and the Tagged branch of _annotated_converter in pane/convert.py",
+    'C13': "ConditionalConverter in pane/converters.py, _annotated_converter in pane/convert.py (stacked annotations), and the ready-made aliases in pane/types.py (PositiveInt, NonNegativeFloat, FiniteFloat, ListNotEmpty, ...)",
+    'C14': "PaneConverter.try_convert_struct / try_convert_tuple (defaults, default factories, set-field record) and PaneBase.from_data / from_dict_unchecked / make_unchecked in pane/classes.py, FieldSpec.make_field and Field in pane/field.py",
+    'C15': "PaneConverter.try_convert (layout selection), try_convert_struct, try_convert_tuple and their collect_errors counterparts in pane/classes.py",
+    'C16': "_make_eq, the generated __repr__, __copy__ / __deepcopy__ / __replace__ and __setattr__ / __delattr__ in pane/classes.py",
+    'C17': "_process (field collection and ordering, keyword-only handling) and PaneBase.__init_subclass__ (option handling) in pane/classes.py, FieldSpec.replace_typevars in pane/field.py",
+    'C18': "FieldSpec / Field `converter=` handling in pane/field.py, PaneConverter.__init__ (how handler chains are combined) in pane/classes.py, and how UnionConverter / TaggedUnionConverter / DelegateConverter / EnumConverter pass handlers on, in both directions",
+    'C19': "the IO methods of PaneBase in pane/classes.py (from_json / from_yaml / from_jsons / from_yamls / write_json / write_yaml and how they pass options on) and into_data / from_data in pane/convert.py as used by pane/io.py",
+    'C20': "the uses of rename styles in pane/classes.py (PaneOptions in_rename / out_rename, tuple-valued in_rename, PaneBase.dict(rename=)) and in FieldSpec.make_field (pane/field.py)",
+}
 FOCUS[4] = ("it lives in the region of the library named below and shows only under a narrow circumstance that a real user could still hit "
             "(one pass or one direction only, one member of a family, a second call, an unusual but legal input or option combination). "
             "REGION for this task: {region}. All three changes must be made inside that region; read it closely first and look for behaviour that the "
@@ -85,7 +108,7 @@ The behavioural property under study (this is all you get; read the library's co
 Your task: produce THREE different source changes to the library (files under {wt}/pane/), each of which
   (a) still imports/compiles and leaves all 218 passing tests passing,
   (b) BREAKS the property above (a user relying on the property would be wrong for some inputs), and
-  (c) is SUBTLE: {FOCUS[rnd].replace('{region}', REGION.get(pid, 'anywhere')) if rnd == 4 else FOCUS[rnd]} Prefer breaks that a reviewer skimming the diff would wave through (a plausible refactor, micro-optimisation, "simplification", defensive check, caching, or a fix for some other imagined problem). Avoid the most obvious edits (flipping a comparison in the main path, deleting a whole check that every input exercises). The three changes must touch different mechanisms (different functions / code paths). Keep each change small (typically 1-15 lines).
+  (c) is SUBTLE: {FOCUS[4].replace('{region}', (REGION if rnd == 4 else REGION5).get(pid, 'anywhere')) if rnd in (4, 5) else FOCUS[rnd]} Prefer breaks that a reviewer skimming the diff would wave through (a plausible refactor, micro-optimisation, "simplification", defensive check, caching, or a fix for some other imagined problem). Avoid the most obvious edits (flipping a comparison in the main path, deleting a whole check that every input exercises). The three changes must touch different mechanisms (different functions / code paths). Keep each change small (typically 1-15 lines).
 
 For each change k in 1, 2, 3 write into {out}/k/ :
   - patch.diff : output of `git -C {wt} diff` for that change alone (it must apply with `git apply` to a clean checkout of HEAD),
